@@ -14,7 +14,7 @@ from pulsarbat.pulsar.phase import Phase, FractionalPhase
 from harness.common import float_lit, zlit, listlit
 
 VFILES = ['Model/Phase2.v', 'Proofs/TwoSumExact.v', 'Proofs/Floor.v', 'Proofs/DayFrac.v', 'Proofs/DayFrac3.v', 'Proofs/PhaseAdd.v',
-          'Proofs/PhaseCmp.v', 'Proofs/PhaseMore.v', 'Proofs/DayFracTail.v', 'Proofs/TwoProduct.v', 'Proofs/PhaseMul.v', 'Proofs/PhaseAbs.v', 'Proofs/DivChain.v', 'Proofs/PhaseDiv.v', 'Model/PhaseDivmod.v', 'Model/PhaseOrd.v', 'Proofs/PhaseArgmin.v', 'Proofs/PhaseSort.v', 'Proofs/PhaseRemainder.v', 'Proofs/PhaseDivmodProofs.v', 'Props/C07.v']
+          'Proofs/PhaseCmp.v', 'Proofs/PhaseMore.v', 'Proofs/DayFracTail.v', 'Proofs/TwoProduct.v', 'Proofs/PhaseMul.v', 'Proofs/PhaseAbs.v', 'Proofs/DivChain.v', 'Proofs/PhaseDiv.v', 'Model/PhaseDivmod.v', 'Model/PhaseOrd.v', 'Proofs/PhaseArgmin.v', 'Proofs/PhaseSort.v', 'Proofs/PhaseRemainder.v', 'Proofs/PhaseDivmodProofs.v', 'Proofs/PhaseDivmodFloor.v', 'Props/C07.v']
 REAL_AX = {'ClassicalDedekindReals.sig_forall_dec', 'ClassicalDedekindReals.sig_not_dec',
            'FunctionalExtensionality.functional_extensionality_dep', 'Classical_Prop.classic', 'float'}
 TOL = Fr(1, 2 ** 52)
@@ -24,6 +24,7 @@ From PB Require Import Model.Phase2 Model.PhaseDivmod.
 Definition P (i f : float) (b : bool) : ph := {| p_int := i; p_frac := f; p_imag := b |}.
 Definition cmp_code (m : option bool) (impl : Z) : Z :=       (* impl: 0 False, 1 True, 2 not a bool / raised *)
   match m, impl with Some true, 1%Z => 0 | Some false, 0%Z => 0 | None, 2%Z => 0 | _, _ => 1 end%Z.
+Definition chk_fdiv (a b q m : float) : Z := let '(fd, md) := np_divmod a b in (if feqb fd q then 0 else 1) + (if feqb md m then 0 else 2).
 Open Scope Z_scope.
 '''
 
@@ -462,6 +463,31 @@ def run(ctx):
                 if qa is not None and abs(Fr(float(qa[k])) * ed + er - ea) > TOL:
                     ctx.fail('divmod_identity', dict(inp, element=k), impl=[float(qa[k]), float(er)])
                     break
+
+    # ---- numpy's float floor_divide / remainder themselves (the external routine the floor theorem C07_divmod_floor assumes to
+    # return the exact floor): model np_divmod vs numpy bit for bit, and numpy vs the exact rational floor on the theorem's domain
+    for c in range(150 if ctx.tier == 'quick' else 3000):
+        kind = rng.choice(['near_multiple', 'random', 'small', 'negative_divisor'])
+        b = float(rng.choice([1.0, 0.5, 3.0, 0.3, 7.5, 1 / 3, 2.0 ** -10, 2.0 ** 10, rng.uniform(2.0 ** -10, 2.0 ** 10)]))
+        if kind == 'near_multiple':
+            m = float(rng.randint(-2 ** 30, 2 ** 30))
+            a = m * b + rng.choice([0.0, 1e-9, -1e-9, 2.0 ** -30, -2.0 ** -30]) * rng.choice([1.0, b])
+        elif kind == 'small':
+            a = rng.uniform(-2 * b, 2 * b) * rng.choice([1.0, 1e-3, 1e-9])
+        else:
+            a = rng.uniform(-2.0 ** 41, 2.0 ** 41) * rng.choice([1.0, 2.0 ** -10, 2.0 ** -30])
+        if kind == 'negative_divisor':
+            b = -b
+        inp = dict(op='np_floor_divide', a=a, b=b, kind=kind)
+        ctx.seen(inp); ctx.count('op:np_floor_divide')
+        qn, mn = np.divmod(np.float64(a), np.float64(b))
+        add_item(f'chk_fdiv {fl(a)} {fl(b)} {fl(qn)} {fl(mn)}', inp, [float(qn), float(mn)])
+        if b > 0 and abs(a) <= 2.0 ** 41 and float(np.floor_divide(a, b)) != float(qn):
+            ctx.fail('numpy_floor_divide_inconsistent', inp)
+        if 2.0 ** -10 <= b <= 2.0 ** 10 and abs(a) <= 2.0 ** 41:
+            want = math.floor(Fr(a) / Fr(b))
+            if Fr(float(qn)) != want:
+                ctx.fail('numpy_floor_divide_is_not_the_exact_floor', inp, impl=float(qn), model=float(want))
 
     # ---- sin / cos / exp depend only on the fractional part
     for c in range(60 if ctx.tier == 'quick' else 1000):
